@@ -62,6 +62,8 @@ type vCfg struct {
 	// plain receivers / processors / exporters with an odd id come from the stable receiver/processor/exporter
 	// NewFactory (three signals; only chosen when no profiles pipeline exists)
 	stablePlain bool
+	scheme      int    // naming scheme (vName)
+	failSeed    uint64 // which components refuse in the fault pass
 }
 
 func (c *vCfg) isConn(id int) bool { _, ok := c.conns[id]; return ok }
@@ -95,13 +97,49 @@ func vSigByName(n string) int {
 	return 99
 }
 
-func vPID(sig, name int) pipeline.ID { return pipeline.NewIDWithName(vSignals[sig], "p"+strconv.Itoa(name)) }
+// ---- names: the model's numeric ids are realised by component / pipeline NAMES of one of several schemes;
+// node identity must separate whatever the ID types separate (case, long common prefixes, ...)
+var (
+	vScheme  int
+	vNameNum = map[string]int{}
+)
 
-func vPIDParse(s string) (int, int) { // "traces/p3"
+func vName(n int) string {
+	var s string
+	switch vScheme {
+	case 1: // all names equal up to letter case: bit i of n = letter i upper-case
+		b := []byte("abcdefgh")
+		for i := range b {
+			if n&(1<<uint(i)) != 0 {
+				b[i] -= 'a' - 'A'
+			}
+		}
+		s = string(b)
+	case 2: // long common prefix, difference at the very end
+		s = strings.Repeat("x", 70) + strconv.Itoa(n)
+	case 3: // difference at the very beginning, non-ASCII letters of both cases, long common suffix
+		s = strconv.Itoa(n) + "-Éé.ßẞ_" + strings.Repeat("y", 40)
+	default:
+		s = strconv.Itoa(n)
+	}
+	vNameNum[s] = n
+	return s
+}
+
+func vNum(name string) int {
+	if n, ok := vNameNum[name]; ok {
+		return n
+	}
+	return 9999
+}
+
+func vPID(sig, name int) pipeline.ID { return pipeline.NewIDWithName(vSignals[sig], vName(name)) }
+
+func vPIDParse(s string) (int, int) { // "traces/<name>"
 	parts := strings.SplitN(s, "/", 2)
-	n := 0
+	n := 9999
 	if len(parts) == 2 {
-		n, _ = strconv.Atoi(strings.TrimPrefix(parts[1], "p"))
+		n = vNum(parts[1])
 	}
 	return vSigByName(parts[0]), n
 }
@@ -111,22 +149,23 @@ var (
 	vProcType = component.MustNewType("vproc")
 	vExpType  = component.MustNewType("vexp")
 
-	vRecvTypeS = component.MustNewType("vrecvs")
-	vProcTypeS = component.MustNewType("vprocs")
-	vExpTypeS  = component.MustNewType("vexps")
+	// the stable-constructor factories: type names that differ from the x ones only in letter case
+	vRecvTypeS = component.MustNewType("VRECV")
+	vProcTypeS = component.MustNewType("VPROC")
+	vExpTypeS  = component.MustNewType("VEXP")
 )
 
 func vConnType(m uint16, stable bool) component.Type {
 	if stable {
-		return component.MustNewType(fmt.Sprintf("vconns_%04x", m))
+		return component.MustNewType(fmt.Sprintf("VCONN_%04X", m))
 	}
 	return component.MustNewType(fmt.Sprintf("vconn_%04x", m))
 }
 
 
-func vCID(t component.Type, id int) component.ID { return component.MustNewIDWithName(t.String(), strconv.Itoa(id)) }
+func vCID(t component.Type, id int) component.ID { return component.MustNewIDWithName(t.String(), vName(id)) }
 
-func vIDNum(id component.ID) int { n, _ := strconv.Atoi(id.Name()); return n }
+func vIDNum(id component.ID) int { return vNum(id.Name()) }
 
 // ---- instrumented components ------------------------------------------------------------------------
 type vNodeKey struct{ kind, a, b, id int }
@@ -147,7 +186,10 @@ type vComp struct {
 	got            []string
 	routerIDs      []pipeline.ID
 	anomalies      []string
+	refusing       bool // fault pass: return an error, record nothing, forward nothing
 }
+
+var errVRefused = fmt.Errorf("verif: component refuses the payload")
 
 type vReg struct {
 	comps []*vComp
@@ -278,6 +320,9 @@ func (c *vComp) handle(ctx context.Context, sig int, data any) error {
 	if sig != c.sigIn {
 		c.anomalies = append(c.anomalies, fmt.Sprintf("instance %d (kind %d, in-signal %d) was handed signal %d", c.serial, c.kind, c.sigIn, sig))
 	}
+	if c.refusing {
+		return errVRefused
+	}
 	switch c.kind {
 	case 2:
 		c.got = append(c.got, vGetTrail(data))
@@ -295,6 +340,7 @@ func (c *vComp) handle(ctx context.Context, sig int, data any) error {
 			// odd connector ids route explicitly: one Consumer(pipelineID) per downstream pipeline
 			ids := append([]pipeline.ID(nil), c.routerIDs...)
 			sort.Slice(ids, func(i, j int) bool { return ids[i].String() < ids[j].String() })
+			var firstErr error
 			for _, id := range ids {
 				cons, err := vRoute(c.next, id)
 				if err != nil {
@@ -305,11 +351,11 @@ func (c *vComp) handle(ctx context.Context, sig int, data any) error {
 				if c.id%4 == 3 {
 					vMarkRO(nd) // a connector may hand on a payload it still shares
 				}
-				if err := vSend(ctx, cons, nd); err != nil {
-					return err
+				if err := vSend(ctx, cons, nd); err != nil && firstErr == nil {
+					firstErr = err // keep serving the other pipelines, report afterwards
 				}
 			}
-			return nil
+			return firstErr
 		}
 		if c.sigIn == c.sigOut {
 			vAttrs(data).PutStr(vTrailKey, t)
@@ -535,6 +581,9 @@ type vObs struct {
 	recvs      []vNodeKey
 	deliv      map[vNodeKey][]vDelivery
 	delivRO    map[vNodeKey][]vDelivery // the same injections with a payload marked read-only
+	delivF     map[vNodeKey][]vDelivery // fault pass: some components refuse
+	errF       map[vNodeKey]bool        // fault pass: did the receiver get an error back
+	refusing   []vNodeKey
 	problems   [][2]string // (oracle kind, detail) found while observing
 	routers    map[vNodeKey][]string
 	routerPIDs map[vNodeKey][][2]int
@@ -542,9 +591,9 @@ type vObs struct {
 }
 
 var (
-	vReUnsup = regexp.MustCompile(`^connector "vconns?_[0-9a-f]+/(\d+)" used as (exporter|receiver) in \[([^\]]*)\] pipeline but not used in any supported (receiver|exporter) pipeline$`)
-	vReConn  = regexp.MustCompile(`^connector "vconns?_[0-9a-f]+/(\d+)" \((\w+) to (\w+)\)$`)
-	vReProc  = regexp.MustCompile(`^processor "vprocs?/(\d+)" in pipeline "([^"]+)"$`)
+	vReUnsup = regexp.MustCompile(`^connector "(?i:vconn)_[0-9a-fA-F]+/([^"]+)" used as (exporter|receiver) in \[([^\]]*)\] pipeline but not used in any supported (receiver|exporter) pipeline$`)
+	vReConn  = regexp.MustCompile(`^connector "(?i:vconn)_[0-9a-fA-F]+/([^"]+)" \((\w+) to (\w+)\)$`)
+	vReProc  = regexp.MustCompile(`^processor "(?i:vproc)/([^"]+)" in pipeline "([^"]+)"$`)
 )
 
 func vUnwrap(c component.Component) *vComp {
@@ -564,9 +613,10 @@ func vUnwrap(c component.Component) *vComp {
 }
 
 func vRun(cfg *vCfg) (obs *vObs) {
-	obs = &vObs{deliv: map[vNodeKey][]vDelivery{}, delivRO: map[vNodeKey][]vDelivery{}, routers: map[vNodeKey][]string{}, routerPIDs: map[vNodeKey][][2]int{}}
+	obs = &vObs{deliv: map[vNodeKey][]vDelivery{}, delivRO: map[vNodeKey][]vDelivery{}, delivF: map[vNodeKey][]vDelivery{}, errF: map[vNodeKey]bool{}, routers: map[vNodeKey][]string{}, routerPIDs: map[vNodeKey][][2]int{}}
 	reg := &vReg{}
 	vCur = reg
+	vScheme = cfg.scheme
 	pcfg := pipelines.Config{}
 	rc := map[component.ID]component.Config{}
 	pc := map[component.ID]component.Config{}
@@ -583,7 +633,7 @@ func vRun(cfg *vCfg) (obs *vObs) {
 			return vCID(vConnType(mm, cfg.stable[id]), id)
 		}
 		if cfg.stablePlain && id%2 == 1 {
-			t = component.MustNewType(t.String() + "s")
+			t = component.MustNewType(strings.ToUpper(t.String()))
 		}
 		cid := vCID(t, id)
 		m[cid] = vDefCfg()
@@ -652,10 +702,10 @@ func vRun(cfg *vCfg) (obs *vObs) {
 			obs.class = 2
 			for _, part := range strings.Split(strings.TrimPrefix(obs.errText, "cycle detected: "), " -> ") {
 				if m := vReConn.FindStringSubmatch(part); m != nil {
-					k, _ := strconv.Atoi(m[1])
+					k := vNum(m[1])
 					obs.detail = append(obs.detail, vNodeKey{3, vSigByName(m[2]), vSigByName(m[3]), k})
 				} else if m := vReProc.FindStringSubmatch(part); m != nil {
-					i, _ := strconv.Atoi(m[1])
+					i := vNum(m[1])
 					s, n := vPIDParse(m[2])
 					obs.detail = append(obs.detail, vNodeKey{1, s, n, i})
 				} else {
@@ -665,7 +715,7 @@ func vRun(cfg *vCfg) (obs *vObs) {
 		case vReUnsup.MatchString(obs.errText):
 			obs.class = 1
 			m := vReUnsup.FindStringSubmatch(obs.errText)
-			k, _ := strconv.Atoi(m[1])
+			k := vNum(m[1])
 			side := 0
 			if m[2] == "receiver" {
 				side = 1
@@ -757,10 +807,21 @@ func vRun(cfg *vCfg) (obs *vObs) {
 	}
 	// inject one tagged payload at every receiver instance — once as a fresh mutable payload, once marked
 	// read-only (a receiver may share its payload with somebody else; mutating consumers must then get a clone)
-	for _, ro := range []bool{false, true} {
+	// ... and a third time (fault pass) while some processors / exporters / connectors refuse the payload
+	for pass := 0; pass < 3; pass++ {
+		ro := pass == 1
 		target := obs.deliv
 		if ro {
 			target = obs.delivRO
+		}
+		if pass == 2 {
+			target = obs.delivF
+			for _, c := range reg.comps {
+				if c.kind != 0 && vRefuses(cfg.failSeed, keyOf[c.serial]) {
+					c.refusing = true
+					obs.refusing = append(obs.refusing, keyOf[c.serial])
+				}
+			}
 		}
 		for _, r := range reg.comps {
 			if r.kind != 0 {
@@ -780,7 +841,10 @@ func vRun(cfg *vCfg) (obs *vObs) {
 				if ro {
 					vMarkRO(data)
 				}
-				if err := vSend(context.Background(), r.next, data); err != nil {
+				err := vSend(context.Background(), r.next, data)
+				if pass == 2 {
+					obs.errF[keyOf[r.serial]] = err != nil
+				} else if err != nil {
 					obs.problems = append(obs.problems, [2]string{"consume-error", err.Error()})
 				}
 			}()
@@ -817,6 +881,13 @@ func vRun(cfg *vCfg) (obs *vObs) {
 	return obs
 }
 
+// vRefuses: does the component with this node key refuse in the fault pass (about one in five; by key, not by
+// creation order, which depends on map iteration)
+func vRefuses(seed uint64, k vNodeKey) bool {
+	r := &vRand{s: seed ^ uint64(k.kind*1000003+k.a*10007+k.b*101+k.id)*0x9E3779B97F4A7C15}
+	return r.Intn(100) < 20
+}
+
 func vFactoryKeys(reg *vReg) []vNodeKey {
 	var l []vNodeKey
 	for _, c := range reg.comps {
@@ -830,6 +901,8 @@ type vExpect struct {
 	class     int
 	instances map[vNodeKey]bool
 	deliv     map[vNodeKey][]string // receiver -> sorted "exp|trail" strings
+	delivF    map[vNodeKey][]string // the same when the components chosen by failSeed refuse
+	errF      map[vNodeKey]bool
 	routers   map[vNodeKey][]string
 	badExp    map[[2]int]bool // (connector, signal) exporter uses without a supported receiver use
 	badRecv   map[[2]int]bool
@@ -854,7 +927,7 @@ func vDelivStr(d vDelivery) string {
 }
 
 func vOracle(cfg *vCfg) *vExpect {
-	ex := &vExpect{instances: map[vNodeKey]bool{}, deliv: map[vNodeKey][]string{}, routers: map[vNodeKey][]string{},
+	ex := &vExpect{instances: map[vNodeKey]bool{}, deliv: map[vNodeKey][]string{}, delivF: map[vNodeKey][]string{}, errF: map[vNodeKey]bool{}, routers: map[vNodeKey][]string{},
 		badExp: map[[2]int]bool{}, badRecv: map[[2]int]bool{}, onCycle: map[[2]int]bool{}}
 	// duplicated processor in one pipeline: the node would be added twice
 	for _, p := range cfg.pipes {
@@ -972,12 +1045,23 @@ func vOracle(cfg *vCfg) *vExpect {
 		ex.routers[ck] = ids
 	}
 	// deliveries: configuration-level paths
+	faults, hit := false, false // fault pass: refusing components cut the path (and cause an error)
+	refuses := func(k vNodeKey) bool {
+		if faults && vRefuses(cfg.failSeed, k) {
+			hit = true
+			return true
+		}
+		return false
+	}
 	var walk func(pi int, trail []vNodeKey, out *[]string)
 	walk = func(pi int, trail []vNodeKey, out *[]string) {
 		p := cfg.pipes[pi]
 		t := append([]vNodeKey(nil), trail...)
 		for _, x := range p.procs {
 			t = append(t, vNodeKey{1, p.sig, p.name, x})
+			if refuses(vNodeKey{1, p.sig, p.name, x}) {
+				return
+			}
 		}
 		doneE := map[int]bool{}
 		for _, e := range p.exps {
@@ -986,11 +1070,22 @@ func vOracle(cfg *vCfg) *vExpect {
 			}
 			doneE[e] = true
 			if !cfg.isConn(e) {
-				*out = append(*out, vDelivStr(vDelivery{vNodeKey{2, p.sig, 0, e}, t}))
+				if !refuses(vNodeKey{2, p.sig, 0, e}) {
+					*out = append(*out, vDelivStr(vDelivery{vNodeKey{2, p.sig, 0, e}, t}))
+				}
 				continue
 			}
 			for r := 0; r < 4; r++ { // one connector instance per destination signal
 				if !cfg.supp(e, p.sig, r) {
+					continue
+				}
+				used := false
+				for _, q := range cfg.pipes {
+					if q.sig == r && vHas(q.recv, e) {
+						used = true
+					}
+				}
+				if !used || refuses(vNodeKey{3, p.sig, r, e}) {
 					continue
 				}
 				t2 := append(append([]vNodeKey(nil), t...), vNodeKey{3, p.sig, r, e})
@@ -1002,23 +1097,34 @@ func vOracle(cfg *vCfg) *vExpect {
 			}
 		}
 	}
-	for _, p := range cfg.pipes {
-		for _, r := range p.recv {
-			if cfg.isConn(r) {
-				continue
-			}
-			rk := vNodeKey{0, p.sig, 0, r}
-			if _, done := ex.deliv[rk]; done {
-				continue
-			}
-			out := []string{}
-			for qi, q := range cfg.pipes {
-				if q.sig == p.sig && vHas(q.recv, r) {
-					walk(qi, nil, &out)
+	for pass := 0; pass < 2; pass++ {
+		faults = pass == 1
+		for _, p := range cfg.pipes {
+			for _, r := range p.recv {
+				if cfg.isConn(r) {
+					continue
+				}
+				rk := vNodeKey{0, p.sig, 0, r}
+				tgt := ex.deliv
+				if faults {
+					tgt = ex.delivF
+				}
+				if _, done := tgt[rk]; done {
+					continue
+				}
+				out := []string{}
+				hit = false
+				for qi, q := range cfg.pipes {
+					if q.sig == p.sig && vHas(q.recv, r) {
+						walk(qi, nil, &out)
+					}
+				}
+				sort.Strings(out)
+				tgt[rk] = out
+				if faults {
+					ex.errF[rk] = hit
 				}
 			}
-			sort.Strings(out)
-			ex.deliv[rk] = out
 		}
 	}
 	return ex
@@ -1105,12 +1211,22 @@ func vCompare(out *vOut, term string, cfg *vCfg, obs *vObs, ex *vExpect) {
 	if len(obs.deliv) != len(ex.deliv) {
 		out.Oracle("receiver-set", term, fmt.Sprintf("expected %d receivers, injected at %d", len(ex.deliv), len(obs.deliv)))
 	}
-	for pass, delivered := range []map[vNodeKey][]vDelivery{obs.deliv, obs.delivRO} {
+	for rk, want := range ex.errF {
+		if got := obs.errF[rk]; got != want {
+			out.Oracle("fault-error-propagation", term, fmt.Sprintf("receiver %s: a refusing component on a path: %v, error returned: %v", rk, want, got))
+		}
+	}
+	for pass, delivered := range []map[vNodeKey][]vDelivery{obs.deliv, obs.delivRO, obs.delivF} {
 		kind := "routing"
 		if pass == 1 {
 			kind = "routing-readonly-payload"
 		}
-		for rk, wantL := range ex.deliv {
+		expected := ex.deliv
+		if pass == 2 {
+			kind = "routing-under-faults" // a refusing component must cut its own paths only
+			expected = ex.delivF
+		}
+		for rk, wantL := range expected {
 			gotL := []string{}
 			for _, d := range delivered[rk] {
 				gotL = append(gotL, vDelivStr(d))
@@ -1158,10 +1274,15 @@ func vTerm(cfg *vCfg, obs *vObs) string {
 		}
 		cs = append(cs, vPair(vNat(k), vPair(vBool(!cfg.stable[k]), vList(pairs))))
 	}
-	var ds, dsro []string
+	var ds, dsro, dsf, errs []string
 	rks := append([]vNodeKey(nil), obs.recvs...)
 	for _, rk := range rks {
-		var xs, ys []string
+		var xs, ys, zs []string
+		for _, d := range obs.delivF[rk] {
+			zs = append(zs, vPair(d.exp.term(), vKeys(d.trail)))
+		}
+		dsf = append(dsf, vPair(rk.term(), vList(zs)))
+		errs = append(errs, vPair(rk.term(), vBool(obs.errF[rk])))
 		for _, d := range obs.deliv[rk] {
 			xs = append(xs, vPair(d.exp.term(), vKeys(d.trail)))
 		}
@@ -1181,7 +1302,7 @@ func vTerm(cfg *vCfg, obs *vObs) string {
 	}
 	cls := obs.class
 	return vPair(vPair(vList(ps), vList(cs)),
-		vPair(vBool(obs.validateOK), vPair(vNat(cls), vPair(vKeys(obs.detail), vPair(vKeys(obs.created), vPair(vKeys(obs.started), vPair(vList(ds), vPair(vList(dsro), vList(rs)))))))))
+		vPair(vBool(obs.validateOK), vPair(vNat(cls), vPair(vKeys(obs.detail), vPair(vKeys(obs.created), vPair(vKeys(obs.started), vPair(vList(ds), vPair(vList(dsro), vPair(vList(rs), vPair(vKeys(obs.refusing), vPair(vList(dsf), vList(errs))))))))))))
 }
 
 // ---- generator -----------------------------------------------------------------------------------------
@@ -1340,6 +1461,8 @@ func vGen(rng *vRand, out *vOut) *vCfg {
 		}
 	}
 	cfg.stablePlain = !hasProfiles && rng.Bool()
+	cfg.scheme = rng.Pick(30, 40, 15, 15)
+	cfg.failSeed = rng.U64()
 	// invalid configurations (rejected by Validate; Build is still exercised)
 	switch rng.Pick(92, 3, 2, 3) {
 	case 1:
@@ -1371,6 +1494,24 @@ func vStats(out *vOut, cfg *vCfg, obs *vObs) {
 	}
 	if cfg.stablePlain {
 		out.Stat("configs_with_stable_plain_factories", 1)
+	}
+	out.Stat(fmt.Sprintf("naming_scheme_%d", cfg.scheme), 1)
+	if obs.class == 0 {
+		out.Stat(fmt.Sprintf("refusing_components_%d", min(len(obs.refusing), 5)), 1)
+		cut, err := 0, 0
+		for rk, ds := range obs.deliv {
+			if len(obs.delivF[rk]) < len(ds) {
+				cut++
+			}
+			if len(obs.delivF[rk]) > 0 && len(obs.delivF[rk]) < len(ds) {
+				out.Stat("receivers_with_some_paths_cut_some_kept", 1)
+			}
+			if obs.errF[rk] {
+				err++
+			}
+		}
+		out.Stat("receivers_with_paths_cut", cut)
+		out.Stat("receivers_with_error_returned", err)
 	}
 	if obs.class != 0 {
 		return
@@ -1482,7 +1623,7 @@ func TestVerifC09(t *testing.T) {
 						pb.sig, pb.name = pids[b][0], pids[b][1]
 						// the four factory variants (x / stable connector factory, x / stable plain factories) in turn
 						cfg := &vCfg{pipes: []vPipe{pa, pb}, conns: map[int]uint16{10: m}, order: []int{10},
-							stable: map[int]bool{10: cnt%2 == 1}, stablePlain: cnt%4 >= 2}
+							stable: map[int]bool{10: cnt%2 == 1}, stablePlain: cnt%4 >= 2, scheme: (cnt / 4) % 4, failSeed: uint64(cnt) * 7919}
 						vOne(out, cfg)
 						cnt++
 					}
